@@ -22,6 +22,7 @@ import (
 	"mellium.im/xmpp"
 	"mellium.im/xmpp/component"
 	"mellium.im/xmpp/jid"
+	"mellium.im/xmpp/s2s"
 	"mellium.im/xmpp/websocket"
 
 	"verifharness/c01"
@@ -40,6 +41,7 @@ type exchange struct {
 	expect *regexp.Regexp // matched against what the library wrote since the last match (nil: send at once)
 	send   string         // `$1` is replaced by the first capture
 	tls    bool           // after sending, the peer starts a TLS server handshake on the connection
+	tlsc   bool           // after matching (and sending, if send is not empty), the peer starts a TLS client handshake
 }
 
 type handshake struct {
@@ -54,8 +56,11 @@ type handshake struct {
 	inside   byte
 	insideAt int
 	name     string
-	steps    []exchange
-	run     func(ctx context.Context, c net.Conn) (*xmpp.Session, error)
+	// short: only the short spelling of the peer's empty elements (variants of a handshake whose
+	// long spelling is enumerated already)
+	short bool
+	steps []exchange
+	run   func(ctx context.Context, c net.Conn) (*xmpp.Session, error)
 }
 
 // duplex is the library's end of the connection.
@@ -79,6 +84,9 @@ type duplex struct {
 	budget  int  // bytes the peer may still deliver (-1 unlimited)
 	sent    int
 	cutHit  bool // the budget ended the peer's stream
+	// the failing Read / Write of the case was reached (the number of reads of a TLS layer depends
+	// on how the peer's records happen to be coalesced: a run may need fewer than the clean one)
+	faultHit bool
 	// cancellation *inside* an I/O operation that itself completes: when the Read / Write with
 	// this index has its data, the context is cancelled (fire), the harness waits until the
 	// library's watcher has moved both deadlines into the past (<= 1 s), the operation returns
@@ -215,6 +223,7 @@ func (d *duplex) Read(p []byte) (int, error) {
 	d.reads++
 	d.noteOp(false)
 	if idx == d.failRd {
+		d.faultHit = true
 		return 0, c01.InjErr(d.errKind, errInjected)
 	}
 	for len(d.in) == 0 && !d.eof && !d.expired(false) {
@@ -244,6 +253,7 @@ func (d *duplex) Write(p []byte) (int, error) {
 	d.writes++
 	d.noteOp(true)
 	if idx == d.failWr {
+		d.faultHit = true
 		return 0, c01.InjErr(d.errKind, errInjected)
 	}
 	if d.expired(true) {
@@ -285,13 +295,14 @@ func (d *duplex) end() {
 }
 
 type hsResult struct {
-	outcome string // done | fail | PANIC | STALL
-	ready   bool
-	err     string
-	sent    int // bytes the peer delivered
-	reads   int
-	writes  int
-	cutHit  bool
+	outcome  string // done | fail | PANIC | STALL
+	ready    bool
+	err      string
+	sent     int // bytes the peer delivered
+	reads    int
+	writes   int
+	cutHit   bool
+	faultHit bool
 	// inside-cancellation cases: the cancellation point was reached; the operations started after it
 	fired    bool
 	afterOps [][2]int
@@ -347,11 +358,18 @@ func play(h handshake, budget, failRd, failWr, cancelAt int) hsResult {
 				return
 			}
 			msg := regexp.MustCompile(`\$1`).ReplaceAllLiteralString(st.send, capture)
-			if _, err := rw.Write([]byte(msg)); err != nil {
-				return
+			if msg != "" || !st.tlsc {
+				if _, err := rw.Write([]byte(msg)); err != nil {
+					return
+				}
 			}
-			if st.tls {
-				tc := tls.Server(peerEnd{d}, serverTLS())
+			if st.tls || st.tlsc {
+				var tc *tls.Conn
+				if st.tls {
+					tc = tls.Server(peerEnd{d}, serverTLS())
+				} else {
+					tc = tls.Client(peerEnd{d}, clientTLS())
+				}
 				if err := tc.Handshake(); err != nil {
 					d.end()
 					return
@@ -401,7 +419,7 @@ func play(h handshake, budget, failRd, failWr, cancelAt int) hsResult {
 	d.end()
 	peerWG.Wait()
 	d.mu.Lock()
-	res.sent, res.reads, res.writes, res.cutHit = d.sent, d.reads, d.writes, d.cutHit
+	res.sent, res.reads, res.writes, res.cutHit, res.faultHit = d.sent, d.reads, d.writes, d.cutHit, d.faultHit
 	res.fired, res.afterOps = d.fired, append([][2]int(nil), d.afterOps...)
 	d.mu.Unlock()
 	return res
@@ -469,7 +487,132 @@ func allHandshakes() []handshake {
 	for _, h := range realHandshakes() {
 		out = append(out, h, longSpelling(h))
 	}
+	for _, h := range realHandshakesE() {
+		out = append(out, h)
+		if !h.short {
+			out = append(out, longSpelling(h))
+		}
+	}
 	return out
+}
+
+// realHandshakesE (round E, review finding C04-2): the receiving half of the real STARTTLS feature
+// (the peer is a TLS client), the WebSocket negotiator on the receiving side, server-to-server
+// sessions with s2s.Bidi on both sides, and STARTTLS handshakes of both roles with TeeIn/TeeOut
+// configured (the negotiator wraps the connection in a teeConn before and after the TLS layer).
+func realHandshakesE() []handshake {
+	me := jid.MustParse("me@example.net")
+	srv := jid.MustParse("example.net")
+	other := jid.MustParse("example.org")
+	hdrS := func(id string) string {
+		return fmt.Sprintf(`<?xml version='1.0'?><stream:stream xmlns='jabber:client' xmlns:stream='%s' version='1.0' id='%s' from='example.net' to='me@example.net'>`, nsStreams, id)
+	}
+	hdrC := fmt.Sprintf(`<stream:stream xmlns='jabber:client' xmlns:stream='%s' version='1.0' to='example.net'>`, nsStreams)
+	hdrS2Sout := func(id string) string {
+		return fmt.Sprintf(`<stream:stream xmlns='jabber:server' xmlns:stream='%s' version='1.0' id='%s' from='example.org' to='example.net'>`, nsStreams, id)
+	}
+	wsOpenC := `<open xmlns='urn:ietf:params:xml:ns:xmpp-framing' version='1.0' to='example.net'/>`
+	mech := fmt.Sprintf(`<mechanisms xmlns='%s'><mechanism>PLAIN</mechanism></mechanisms>`, nsSASL)
+	bindF := fmt.Sprintf(`<bind xmlns='%s'/>`, nsBind)
+	bindRes := fmt.Sprintf(`<iq xmlns='jabber:client' type='result' id='$1'><bind xmlns='%s'><jid>me@example.net/r</jid></bind></iq>`, nsBind)
+	starttls := `<starttls xmlns='urn:ietf:params:xml:ns:xmpp-tls'><required/></starttls>`
+	auth := fmt.Sprintf(`<auth xmlns='%s' mechanism='PLAIN'>AG1lAHB3</auth>`, nsSASL)
+	bindIQ := fmt.Sprintf(`<iq xmlns='jabber:client' type='set' id='b1'><bind xmlns='%s'/></iq>`, nsBind)
+	reStream := regexp.MustCompile(`<stream:stream[^>]*>`)
+	reAuth := regexp.MustCompile(`</auth>`)
+	reIQ := regexp.MustCompile(`<iq [^>]*id=["']([^"']+)["'][^>]*>.*</iq>`)
+	reFeat := regexp.MustCompile(`</(stream:)?features>|<(stream:)?features[^>]*/>`)
+	reSucc := regexp.MustCompile(`<success[^>]*>`)
+	cfg := func(tee bool, fs []xmpp.StreamFeature) func(*xmpp.Session, *xmpp.StreamConfig) xmpp.StreamConfig {
+		return func(*xmpp.Session, *xmpp.StreamConfig) xmpp.StreamConfig {
+			c := xmpp.StreamConfig{Features: fs}
+			if tee {
+				c.TeeIn, c.TeeOut = io.Discard, io.Discard
+			}
+			return c
+		}
+	}
+	serverFeatures := func(withTLS bool) []xmpp.StreamFeature {
+		fs := []xmpp.StreamFeature{
+			xmpp.SASLServer(func(*sasl.Negotiator) bool { return true }, sasl.Plain),
+			xmpp.BindCustom(func(j jid.JID, res string) (jid.JID, error) { return jid.MustParse("me@example.net/r"), nil }),
+		}
+		if withTLS {
+			fs = append([]xmpp.StreamFeature{xmpp.StartTLS(serverTLS())}, fs...)
+		}
+		return fs
+	}
+	recvTLSSteps := []exchange{
+		{expect: nil, send: `<?xml version='1.0'?>` + hdrC},
+		{expect: reFeat, send: `<starttls xmlns='urn:ietf:params:xml:ns:xmpp-tls'/>`},
+		{expect: regexp.MustCompile(`<proceed[^>]*>`), send: ``, tlsc: true},
+		{expect: nil, send: hdrC},
+		{expect: reFeat, send: auth},
+		{expect: reSucc, send: hdrC},
+		{expect: reFeat, send: bindIQ},
+		{expect: regexp.MustCompile(`</iq>`), send: ``},
+	}
+	c2sTLSSteps := []exchange{
+		{expect: reStream, send: hdrS("s0") + `<stream:features>` + starttls + mech + `</stream:features>`},
+		{expect: regexp.MustCompile(`<starttls[^>]*/>`), send: `<proceed xmlns='urn:ietf:params:xml:ns:xmpp-tls'/>`, tls: true},
+		{expect: reStream, send: hdrS("s1") + `<stream:features>` + mech + `</stream:features>`},
+		{expect: reAuth, send: fmt.Sprintf(`<success xmlns='%s'/>`, nsSASL)},
+		{expect: reStream, send: hdrS("s2") + `<stream:features>` + bindF + `</stream:features>`},
+		{expect: reIQ, send: bindRes},
+	}
+	recvTLS := func(tee bool) func(ctx context.Context, c net.Conn) (*xmpp.Session, error) {
+		return func(ctx context.Context, c net.Conn) (*xmpp.Session, error) {
+			return xmpp.ReceiveSession(ctx, c, 0, xmpp.NewNegotiator(cfg(tee, serverFeatures(true))))
+		}
+	}
+	bidi := `<bidi xmlns='urn:xmpp:features:bidi'/>`
+	return []handshake{
+		// short spelling only: the receiving STARTTLS step starts the TLS layer as soon as it has the
+		// start tag of <starttls>; the bytes of a separate end tag </starttls> that arrive later are
+		// taken for a TLS record ("first record does not look like a TLS handshake": fails closed;
+		// the other elements' long spellings are covered by recv-sasl-bind+l)
+		{name: "recv-starttls-sasl-bind", short: true, steps: recvTLSSteps, run: recvTLS(false)},
+		{name: "recv-starttls-sasl-bind+tee", short: true, steps: recvTLSSteps, run: recvTLS(true)},
+		{
+			name: "c2s-starttls-sasl-bind+tee", short: true, steps: c2sTLSSteps,
+			run: func(ctx context.Context, c net.Conn) (*xmpp.Session, error) {
+				fs := []xmpp.StreamFeature{xmpp.StartTLS(clientTLS()), xmpp.SASL("", "pw", sasl.Plain), xmpp.BindResource()}
+				return xmpp.NewSession(ctx, srv, me, c, 0, xmpp.NewNegotiator(cfg(true, fs)))
+			},
+		},
+		{
+			name: "recv-ws-sasl-bind",
+			steps: []exchange{
+				{expect: nil, send: wsOpenC},
+				{expect: reFeat, send: auth},
+				{expect: reSucc, send: wsOpenC},
+				{expect: reFeat, send: bindIQ},
+				{expect: regexp.MustCompile(`</iq>`), send: ``},
+			},
+			run: func(ctx context.Context, c net.Conn) (*xmpp.Session, error) {
+				return xmpp.ReceiveSession(ctx, c, xmpp.Secure, websocket.Negotiator(cfg(false, serverFeatures(false))))
+			},
+		},
+		{
+			// server-to-server, initiating side: voluntary bidi, then SASL; the list after the
+			// restart is empty
+			name: "s2s-bidi-sasl",
+			steps: []exchange{
+				{expect: reStream, send: `<?xml version='1.0'?>` + strings.Replace(hdrS2Sout("t1"), "from='example.org' to='example.net'", "from='example.net' to='example.org'", 1) + `<stream:features>` + bidi + mech + `</stream:features>`},
+				{expect: reAuth, send: fmt.Sprintf(`<success xmlns='%s'/>`, nsSASL)},
+				{expect: reStream, send: strings.Replace(hdrS2Sout("t2"), "from='example.org' to='example.net'", "from='example.net' to='example.org'", 1) + `<stream:features/>`},
+			},
+			run: func(ctx context.Context, c net.Conn) (*xmpp.Session, error) {
+				fs := []xmpp.StreamFeature{s2s.Bidi(), xmpp.SASL("", "pw", sasl.Plain)}
+				return xmpp.NewSession(ctx, srv, other, c, xmpp.S2S|xmpp.Secure, xmpp.NewNegotiator(cfg(false, fs)))
+			},
+		},
+		// (no receiving s2s handshake: with the library's own features a receiving S2S session cannot
+		// complete - after SASL the list is empty (Bidi and SASL are prohibited by Authn) and the
+		// receiver waits for a selection; a selection of bidi is refused because the feature is
+		// looked up by the namespace of its advertisement; a header with `from` is refused because
+		// ReceiveSession starts without a remote address. All three fail closed.)
+	}
 }
 
 func realHandshakes() []handshake {
@@ -664,11 +807,18 @@ func playPipe(h handshake, blockWrite, silentAt int) hsResult {
 				return
 			}
 			msg := regexp.MustCompile(`\$1`).ReplaceAllLiteralString(st.send, capture)
-			if _, err := rw.Write([]byte(msg)); err != nil {
-				return
+			if msg != "" || !st.tlsc {
+				if _, err := rw.Write([]byte(msg)); err != nil {
+					return
+				}
 			}
-			if st.tls {
-				tc := tls.Server(c2, serverTLS())
+			if st.tls || st.tlsc {
+				var tc *tls.Conn
+				if st.tls {
+					tc = tls.Server(c2, serverTLS())
+				} else {
+					tc = tls.Client(c2, clientTLS())
+				}
 				if err := tc.Handshake(); err != nil {
 					return
 				}
@@ -785,6 +935,10 @@ func replayHS(r *common.Run, f []string) error {
 			if f[2] == "cut" && !res.cutHit {
 				return nil
 			}
+			if k := strings.SplitN(f[2], ".", 2)[0]; (k == "rd" || k == "wr" || k == "rdb") && !res.faultHit && res.outcome == "done" {
+				// the failing operation was never reached and the handshake completed: not a fault case
+				return nil
+			}
 			emitHS(r, h, f[2], n, res)
 			return nil
 		}
@@ -797,7 +951,14 @@ func runReal(r *common.Run) {
 	stride := r.Pick(7, 1)
 	for _, h := range allHandshakes() {
 		h := h
-		emit := func(kind string, n int, res hsResult) { emitHS(r, h, kind, n, res) }
+		emit := func(kind string, n int, res hsResult) {
+			if k := strings.SplitN(kind, ".", 2)[0]; (k == "rd" || k == "wr" || k == "rdb") && !res.faultHit && res.outcome == "done" {
+				// the failing operation was never reached (fewer, larger reads than in the clean
+				// run) and the handshake completed: not a fault case
+				return
+			}
+			emitHS(r, h, kind, n, res)
+		}
 		clean := play(h, -1, -1, -1, -1)
 		emit("clean", 0, clean)
 		if clean.outcome != "done" {
